@@ -163,6 +163,7 @@ fn batch(args: &Args) -> i32 {
         let _ = cur.seek(SeekFrom::Start(0));
         let _ = cur.write_all(format!("{:>20}\n", i).as_bytes());
         let run_seed = rng::derive_n(seed, &engine, i);
+        ctx.cur_index = i;
         let res = engines::run_one(&engine, run_seed, &mut ctx);
         agg.add(&res.stats);
         agg.add_counts(&res.counts);
@@ -257,6 +258,7 @@ fn scenario(args: &Args) -> i32 {
     let index = args.u64("index", 0);
     let mut ctx = engines::Ctx::new(args);
     let run_seed = rng::derive_n(seed, &engine, index);
+    ctx.cur_index = index;
     let sc = engines::scenario_of(&engine, run_seed, &mut ctx);
     println!("{}", serde_json::to_string(&json!({"engine": engine, "run_seed": run_seed, "index": index, "scenario": sc})).unwrap());
     0
@@ -275,6 +277,7 @@ fn one(args: &Args) -> i32 {
         simenv::set_trace(t);
     }
     let run_seed = rng::derive_n(seed, &engine, index);
+    ctx.cur_index = index;
     let res = engines::run_one(&engine, run_seed, &mut ctx);
     let vs: Vec<_> = res.violations.iter().map(|(v, _)| v.clone()).collect();
     println!("{}", serde_json::to_string(&json!({"stats": res.stats, "violations": vs})).unwrap());
